@@ -130,6 +130,15 @@ func parseArg(tok string) (*pb.Arg, error) {
 			return pb.String(acct(name).addr.String() + rest), nil
 		}
 		return pb.String(strings.ReplaceAll(v, "\\_", " ")), nil
+	case "trust": // trust:<k1>,<k2>,... : the trust root of a relay chain (another BitXHub): JSON {"addresses": [validator addresses]}
+		addrs := []string{}
+		for _, nm := range strings.Split(v, ",") {
+			if nm != "" {
+				addrs = append(addrs, acct("val-"+nm).addr.String())
+			}
+		}
+		b, _ := json.Marshal(map[string][]string{"addresses": addrs})
+		return pb.Bytes(b), nil
 	case "al": // al:<name>,<~name>,... : the accounts' addresses joined by commas, as a string argument (an admin list);
 		// ~name = the same address spelled in lower case (not the checksummed spelling the node uses for callers)
 		var as []string
